@@ -1,6 +1,7 @@
 //! svh: the implementation side of every correspondence check.  Always built against /repo.
 mod c04;
 mod c05;
+mod c07;
 mod c0809;
 mod c12;
 mod c18;
@@ -21,6 +22,7 @@ fn main() {
     match args[1].as_str() {
         "c04" => c04::main(&args[2..]),
         "c05" => c05::main(&args[2..]),
+        "c07" => c07::main(&args[2..]),
         "c08" | "c09" => c0809::main(&args[1..]),
         "c12" => c12::main(&args[2..]),
         "c18" => c18::main(&args[2..]),
